@@ -1352,7 +1352,9 @@ func (p Patch) ApplyIndentWithOptions(doc []byte, indent string, options *ApplyO
 	}
 
 	var buf bytes.Buffer
-	json.Indent(&buf, data, "", indent)
+	if err := json.Indent(&buf, data, "", indent); err != nil {
+		return nil, err
+	}
 	return buf.Bytes(), nil
 }
 
